@@ -13,6 +13,7 @@ import (
 	"sort"
 	"strings"
 	"time"
+	"unsafe"
 
 	"github.com/whoisnian/glb/util/ioutil"
 
@@ -23,6 +24,8 @@ import (
 func main() { kit.Main(kit.World{Name: "progressworld", Run: run}) }
 
 var errDisk = errors.New("simulated write error")
+
+var hugeBuf []byte
 
 type flaky struct {
 	w     *world
@@ -143,16 +146,36 @@ func (w *world) main() {
 	closeSignal := simrt.MakeChan[struct{}](0)
 
 	sizes := []int{0, 1, 7, 4096, 32 * 1024, 64 * 1024}
+	// one run in eight moves gigabytes: the running total passes 2^31 and 2^32.
+	// The buffer is one untouched (never paged in) allocation per process; the
+	// wrapped writer only looks at lengths, and strings alias it.
+	huge := ch("cfg.huge", 8) == 7
+	if huge {
+		simrt.Probe("total_beyond_2GiB")
+		sizes = []int{1 << 30, 1<<30 + 7, 1 << 29, 64 * 1024, 1, 1<<31 - 1}
+		if hugeBuf == nil {
+			hugeBuf = make([]byte, 1<<31)
+		}
+	}
+	w.cfg["huge"] = huge
 	simrt.GoNamed("writer", "harness", func() {
 		for i := 0; i < nOps; i++ {
 			n := sizes[ch("op.size", len(sizes))]
 			var got int
 			var err error
 			before := fl.total
-			if ch("op.string", 2) == 1 {
+			asString := ch("op.string", 2) == 1
+			switch {
+			case huge && asString && withSW:
+				w.ops = append(w.ops, fmt.Sprintf("WriteString(%d)", n))
+				got, err = pw.WriteString(unsafe.String(&hugeBuf[0], n))
+			case huge:
+				w.ops = append(w.ops, fmt.Sprintf("Write(%d)", n))
+				got, err = pw.Write(hugeBuf[:n])
+			case asString:
 				w.ops = append(w.ops, fmt.Sprintf("WriteString(%d)", n))
 				got, err = pw.WriteString(strings.Repeat("s", n))
-			} else {
+			default:
 				w.ops = append(w.ops, fmt.Sprintf("Write(%d)", n))
 				got, err = pw.Write(make([]byte, n))
 			}
